@@ -173,6 +173,69 @@ def negative(ctx):
                                  sig=["negb-ok", bname])
 
 
+def shipped_visitors_lane(ctx):
+    """The shipped translators ask for types themselves (with whatever arguments their code
+    passes): string / list operands built from fields, literals, concat, substring, tolower,
+    to depth 2, under length(..) and substring(.., 1), translated by the three SQL dialects and
+    both SQLAlchemy visitors with M-infer comparing EVERY answer with the reference type."""
+    import itertools
+    from odata_query.sql import AstToSqlVisitor
+    from odata_query.sql.sqlite import AstToSqliteSqlVisitor
+    from odata_query.sql.athena import AstToAthenaSqlVisitor
+    contracts.INFER_SCHEMA = dict(SCHEMA)
+    # (expression, class): str / list / unk(nown field: fits either); only WELL-TYPED combinations
+    base = [(T.ident("s"), "str"), (T.S("x"), "str"), (T.call("tolower", T.ident("s")), "str"),
+            (T.lst(T.S("a"), T.S("b")), "list"), (T.lst(T.I(1)), "list"),
+            (T.ident("tags"), "unk"), (T.path("rel", "tags"), "unk")]
+
+    def cat(x, y):
+        (ex, cx), (ey, cy) = x, y
+        if cx != cy and "unk" not in (cx, cy):
+            return None
+        return (T.call("concat", ex, ey), cx if cx != "unk" else cy)
+    level1 = list(base)
+    for x, y in itertools.product(base, repeat=2):
+        c = cat(x, y)
+        if c:
+            level1.append(c)
+    for ex, cx in base:
+        level1.append((T.call("substring", ex, T.I(1)), cx))
+    level2 = list(level1)
+    for x in level1[len(base):]:
+        for y in base:
+            for c in (cat(x, y), cat(y, x)):
+                if c:
+                    level2.append(c)
+        level2.append((T.call("substring", x[0], T.I(1)), x[1]))
+    level2 = [e for e, _ in level2]
+    visitors = [("sql", lambda: AstToSqlVisitor()), ("sqlite", lambda: AstToSqliteSqlVisitor()),
+                ("athena", lambda: AstToAthenaSqlVisitor())]
+    j = 0
+    for e in level2:
+        for outer in (("cmp", "eq", T.call("length", e), T.I(2)), ("cmp", "eq", T.call("length", T.call("substring", e, T.I(1))), T.I(2)),
+                      ("cmp", "eq", T.call("indexof", e, T.S("a")), T.I(1)), T.call("contains", e, T.S("a"))):
+            j += 1
+            if not ctx.mine(j):
+                continue
+            text = to_text(outer)
+            o = drive.parse_ast(text)
+            if o[0] != "ok":
+                ctx.count("source_rejected")
+                continue
+            for vname, mk in visitors:
+                ctx.count("evaluations")
+                ctx.count("shipped_visitor_translations")
+                ctx.cls("shipped-visitor:" + vname)
+                try:
+                    mk().visit(o[1])
+                except contracts.MonitorViolation as ex:
+                    ctx.fail({"text": text, "visitor": vname}, "a shipped translator was told a wrong type (M-infer)",
+                             observed=str(ex)[:300], cls="shipped-visitors", sig=["minfer-shipped", vname])
+                except Exception:
+                    ctx.count("shipped_visitor_refused")
+    contracts.INFER_SCHEMA = None
+
+
 def run(ctx):
     contracts.install_parse()
     contracts.install_infer()
@@ -235,6 +298,7 @@ def run(ctx):
                                     arith_type("add", arith_type(op, lt, rt), "duration") else ("un", "neg", e)
                                     if arith_type(op, lt, rt) in ("int", "float", "duration") else e, e),
                               "temporal-arith")
+    shipped_visitors_lane(ctx)
     if ctx.shard == 0:
         negative(ctx)
     contracts.flush_counts(ctx)
